@@ -42,6 +42,14 @@ def _coq_shard(args):
 def run_coq(work, name, cases, results, shard=250):
     """Return list of (index, code) mismatches; shards are compiled in parallel."""
     from concurrent.futures import ThreadPoolExecutor
+    # a stack depth in the thousands cannot come from the machine model on these finite terms (its depth is bounded by the
+    # nesting of the term); such a case is a depth mismatch (code 3) without asking Coq, whose unary numerals would make the
+    # evaluation of thousands of such entries take many minutes
+    deep = [i for i, r in enumerate(results) if r.get("depths") and max(r["depths"]) > 1000]
+    if deep:
+        keep = [i for i in range(len(cases)) if i not in set(deep)]
+        sub = run_coq(work, name, [cases[i] for i in keep], [results[i] for i in keep], shard) if keep else []
+        return sorted([(keep[i], k) for i, k in sub] + [(i, 3) for i in deep])
     jobs = []
     for s in range(0, len(cases), shard):
         jobs.append((work, "%s_%d" % (name, s // shard), s, cases[s:s + shard], results[s:s + shard]))
